@@ -1191,6 +1191,7 @@ func c19ClientRun(p c19Point, env *c19Env, run int) (*c19RunObs, []c19Viol, erro
 		offered[c19PubID(cr.pub)] = cr.pub
 	}
 	capturedIDs := map[string]bool{}
+	captureIssue := ""
 	var mine []c19Key
 	for _, k := range captured {
 		id := c19PubID(k.Pub)
@@ -1213,7 +1214,9 @@ func c19ClientRun(p c19Point, env *c19Env, run int) (*c19RunObs, []c19Viol, erro
 			// (a key whose optional certificate was refused is dropped by the
 			// client and never becomes observable; detector D2 still covers it)
 			if certified[id] && !capturedIDs[id] {
-				return nil, nil, fmt.Errorf("capture broken: the client offered a %s key but its private half was found neither in the agent nor under HOME", c19PubKind(pub))
+				// either the capture is broken or what the client sent as "public key" is not
+				// the public half of any key it holds; decided after the leak detectors ran
+				captureIssue = fmt.Sprintf("the client offered a %s key whose private half was found neither in the agent nor under HOME", c19PubKind(pub))
 			}
 		}
 	}
@@ -1252,7 +1255,11 @@ func c19ClientRun(p c19Point, env *c19Env, run int) (*c19RunObs, []c19Viol, erro
 		}
 		return "connection"
 	}
-	for _, k := range mine { // D1
+	d1keys := mine
+	if captureIssue != "" {
+		d1keys = captured // every private key this client holds, matched to an offer or not
+	}
+	for _, k := range d1keys { // D1
 		for _, comp := range c19PrivComponents(k.Priv) {
 			if w, ok := contains(comp.Bytes); ok {
 				viols = append(viols, c19Viol{
@@ -1260,6 +1267,9 @@ func c19ClientRun(p c19Point, env *c19Env, run int) (*c19RunObs, []c19Viol, erro
 					What: fmt.Sprintf("private component %s of the client's %s key (%s) occurs in the bytes sent to the server: %s", comp.Name, c19PubKind(k.Pub), k.Source, w)})
 			}
 		}
+	}
+	if captureIssue != "" && len(viols) == 0 {
+		return nil, nil, fmt.Errorf("capture broken: %s, and no private component of any held key occurs in the traffic", captureIssue)
 	}
 	for _, u := range corpus { // structural
 		if _, blocks := c19ParsePrivates(u.Data); blocks > 0 || bytes.Contains(u.Data, []byte("openssh-key-v1\x00")) || c19ParseDERPrivate(u.Data) {
